@@ -38,6 +38,9 @@ type Sub struct {
 	Buffer         int
 }
 
+// String makes the router report Name as the subscriber type name.
+func (s *Sub) String() string { return s.Name }
+
 func NewSub(name string) *Sub {
 	return &Sub{Name: name, closing: make(chan struct{}), SubscribeCalls: map[string]int{}}
 }
@@ -181,6 +184,9 @@ type Pub struct {
 }
 
 func NewPub(name string) *Pub { return &Pub{Name: name} }
+
+// String makes the router report Name as the publisher type name.
+func (p *Pub) String() string { return p.Name }
 
 func (p *Pub) Publish(topic string, msgs ...*message.Message) error {
 	p.mu.Lock()
